@@ -305,7 +305,12 @@ def check_main(pid, tier, seed, replay=None):
 
     need = mod.required_counters(tier) if hasattr(mod, "required_counters") else []
     missing = [c for c in need if agg["counters"].get(c, 0) <= 0]
-    inconc = list(agg["inconclusive"])
+    # runs that ended without a verdict (step limit / watchdog of a single
+    # scenario): tolerated while they are a negligible share of the runs
+    soft = [r for r in agg["inconclusive"] if r.startswith("harness:")]
+    inconc = [r for r in agg["inconclusive"] if not r.startswith("harness:")]
+    if len(soft) > max(3, agg["evaluations"] // 100):
+        inconc.append(f"{len(soft)} of {agg['evaluations']} runs ended without a verdict, e.g. {soft[0][:300]}")
     if missing:
         inconc.append("non-vacuity counters at zero: " + ",".join(missing))
     if agg["evaluations"] == 0:
@@ -324,6 +329,8 @@ def check_main(pid, tier, seed, replay=None):
         "known_findings_seen": {k: agg["vkeys"].get(k, 0) for k in seen_known},
         "violation_keys": {k: n for k, n in agg["vkeys"].items() if k not in open_keys},
         "inconclusive": inconc,
+        "runs_without_verdict": len(soft),
+        "runs_without_verdict_examples": soft[:3],
         "verdict": "violated" if fresh_total else ("inconclusive" if inconc else "held"),
     }
     if hasattr(mod, "finish"):
